@@ -16,9 +16,16 @@ def all_checkfns():
     return fns
 
 def glue_ml(fns):
-    pre = []
+    import re
+    pre = []; seen = {}
     for pid in PROPS:
-        pre.append(getattr(module(pid), "GLUE_PREAMBLE", ""))
+        g = getattr(module(pid), "GLUE_PREAMBLE", "")
+        if g in pre: continue          # the same preamble shared by several properties
+        for name in re.findall(r"let rec (\w+)", g):
+            if name in seen:
+                raise RuntimeError("OCaml decoder name %s defined by both %s and %s" % (name, seen[name], pid))
+            seen[name] = pid
+        pre.append(g)
     arms = "".join('  | "%s" -> int_of_nat (%s (%s s))\n' % (cf.kind, cf.ocaml_name, cf.ty.dec()) for cf in fns)
     return ("\n".join(p for p in pre if p) + "\nlet dispatch (kind : string) (s : sexp) : int = match kind with\n" + arms +
             '  | _ -> failwith ("unknown kind " ^ kind)\n\n'
